@@ -101,6 +101,9 @@ def parseLine (views : Views) (ws : List String) : Option (Views × Option TEv) 
     | "apiret" :: n :: i :: res => ev (.apiRet (← parseNat n) (← parseNat i) (← parseApiRes res))
     | ["status", i, st, il, lid, tok, rev, il2] =>
       ev (.status (← parseNat i) (← parseNat st) (← parseBool il) (← parseNat lid) (← parseNat tok) (← parseNat rev) (← parseBool il2))
+    | ["observe", i] => ev (.observe (← parseNat i))
+    | ["snap", i, st, il, lid, tok] =>
+      ev (.snap (← parseNat i) (← parseNat st) (← parseBool il) (← parseNat lid) (← parseNat tok))
     | ["health", i, k, r, rem] => ev (.health (← parseNat i) (← parseNat k) (← parseBool r) (← parseInt rem))
     | ["conn", i, "disconnect"] => ev (.conn (← parseNat i) .disconnect)
     | ["conn", i, "reconnect"] => ev (.conn (← parseNat i) .reconnect)
